@@ -288,3 +288,52 @@ def run_writeback_rule(run, rule_id="F-WRITEBACK"):
     for (cname, fld), why in WRITEBACK_EXCEPTIONS.items():
         run.note(f"reviewed exception {cname}.{fld}: {why}")
     run.end()
+
+
+# ---------------------------------------------------------------------------- every operand is visited on every path
+def run_unconditional_rule(run, rule_id="F-VISIT"):
+    """the object traversals (visit_objects) feed the sensitivity inference, the usage check, the reset set and all
+    rewrites: an operand field that is presented only under a condition on ANOTHER field disappears from all of them
+    for the designs where that condition is false.  Allowed guards mention the visited field itself
+    (`if self._default is not None: operation(self._default, ..)`), test the kind of self, or are loops/comprehensions."""
+    run.begin(
+        rule_id,
+        "IR visit_objects presents every operand field unconditionally: a call operation(self.F, flag) may only be "
+        "guarded by tests on F itself (None / kind tests), never by the presence or value of another field",
+        floor=30,
+    )
+    m = run.idx.mod(IRR)
+    pm = m.parents
+    n = 0
+    for cname, c in m.classes.items():
+        if "." in cname:
+            continue
+        vo = m.functions.get(f"{cname}.visit_objects")
+        if vo is None:
+            continue
+        for call in ast.walk(vo.node):
+            if not (isinstance(call, ast.Call) and dotted(call.func) == "operation" and len(call.args) == 2):
+                continue
+            fld = field_of(call.args[0], call, vo.node, pm)
+            base = fld.split("[")[0].split(".")[0]
+            bad = []
+            cur = call
+            for anc in pm.ancestors(call):
+                if anc is vo.node:
+                    break
+                if isinstance(anc, ast.If) and not any(x is cur for x in ast.walk(anc.test)):
+                    names = {dotted(a) for a in ast.walk(anc.test) if isinstance(a, ast.Attribute)}
+                    mentions_field = any(d and d.startswith("self.") and d.split(".")[1] == base for d in names)
+                    local_names = {x.id for x in ast.walk(anc.test) if isinstance(x, ast.Name)} - {"self", "isinstance", "AccessFlags"}
+                    arg_names = {x.id for x in ast.walk(call.args[0]) if isinstance(x, ast.Name)} - {"self"}
+                    about_operand = bool(local_names & arg_names)  # e.g. `if isinstance(node, Object)` for operation(node.obj, ..)
+                    self_fields = {d.split(".")[1] for d in names if d and d.startswith("self.")}
+                    if not mentions_field and not about_operand and self_fields:
+                        bad.append(src(anc.test))
+                cur = anc
+            n += 1
+            run.ob(not bad, f"{cname}.visit_objects", file=m.rel, line=call.lineno, detail=f"{fld}@{call.lineno - vo.node.lineno}",
+                   expected="presented on every path (guards may only test the field itself)", found=("only if " + " and ".join(bad)) if bad else "unconditional", sample=False)
+    if n < 30:
+        raise AnalysisError(f"{rule_id}: only {n} operand presentations found")
+    run.end()
